@@ -32,6 +32,7 @@ const (
 	mOutReturn = iota
 	mOutTrap
 	mOutUnsupported
+	mOutCall // stopped at an indirect call to mState.stopAtCall (s.stoppedAt is the call instruction)
 )
 
 type mFunc struct {
@@ -67,6 +68,8 @@ type mState struct {
 	unsupp     string
 	stoppedAt  *instruction
 	cur        *mFunc
+	stopAtCall uint64            // non-zero: an indirect call to this address stops the run with mOutCall
+	ectx       map[uint64]uint64 // execution-context words written by the code (saved stack/frame pointers)
 }
 
 func (s *mState) unsupported(why string) {
@@ -188,12 +191,22 @@ func (s *mState) stackStore(a, width, v uint64) {
 	s.stack[a] = mStackEnt{width: width, v: v & wmask(width)}
 }
 
+func isSavedPtrSlot(addr uint64) bool {
+	off := wazevoapi.Offset(addr - frontend.VExecCtxBase)
+	return off == wazevoapi.ExecutionContextOffsetOriginalFramePointer || off == wazevoapi.ExecutionContextOffsetOriginalStackPointer
+}
+
 func (s *mState) loadMem(addr, width uint64) uint64 {
 	if s.unsupp != "" {
 		return 0
 	}
 	if s.isStack(addr) {
 		return s.stackLoad(addr, width)
+	}
+	if width == 8 && s.ectx != nil && isSavedPtrSlot(addr) {
+		if v, ok := s.ectx[addr]; ok {
+			return v
+		}
 	}
 	if addr-mLabelTag < 1<<20 {
 		s.unsupported("load from the code segment")
@@ -223,6 +236,10 @@ func (s *mState) storeMem(addr, width, v uint64) {
 	}
 	if s.isStack(addr) {
 		s.stackStore(addr, width, v)
+		return
+	}
+	if width == 8 && s.ectx != nil && isSavedPtrSlot(addr) {
+		s.ectx[addr] = v
 		return
 	}
 	s.w.Store(addr, width, v)
@@ -663,6 +680,10 @@ func (s *mState) runFrom(cur *mFunc, in *instruction) int {
 			} else {
 				target = s.reg(in.op1.reg())
 			}
+			if s.stopAtCall != 0 && target == s.stopAtCall {
+				s.stoppedAt = in
+				return mOutCall
+			}
 			switch wazevoapi.Offset(target - frontend.VTagBase) {
 			case wazevoapi.ExecutionContextOffsetMemoryGrowTrampolineAddress:
 				// Go-call ABI of the trampoline: delta is the first integer argument after the execution context
@@ -1096,4 +1117,157 @@ func VerifC08_L2_GoCallTrampoline() {
 		verifrt.Assert(got == res[j], "the guest receives exactly the host's results")
 	}
 	verifrt.Cover("trampoline")
+}
+
+// VerifC08_L2_EntryPreamble: the machine code of the Go->guest entry preamble (the real compileEntryPreamble) for signatures
+// with register- and stack-passed parameters and results of every type: at the call of the guest function every argument
+// sits where the calling convention puts it (register or stack slot, full width) with exactly the value Go placed in the
+// parameter slice, and after the callee returned, the result slice holds exactly the callee's results; the original stack
+// and frame pointers are restored.
+func VerifC08_L2_EntryPreamble() {
+	i32t, i64t, f32t, f64t := ssa.TypeI32, ssa.TypeI64, ssa.TypeF32, ssa.TypeF64
+	var ps, rs []ssa.Type
+	switch verifrt.Choose("sig", 7) {
+	case 0:
+		for i := 0; i < 9; i++ {
+			ps = append(ps, i64t)
+		}
+		rs = []ssa.Type{i64t}
+	case 1:
+		for i := 0; i < 9; i++ {
+			ps = append(ps, i32t)
+		}
+		rs = []ssa.Type{i32t}
+	case 2:
+		for i := 0; i < 10; i++ {
+			ps = append(ps, f64t)
+		}
+		rs = []ssa.Type{f64t}
+	case 3:
+		for i := 0; i < 10; i++ {
+			ps = append(ps, f32t)
+		}
+		rs = []ssa.Type{f32t}
+	case 4:
+		for i := 0; i < 5; i++ {
+			ps = append(ps, i64t, f64t, i32t, f32t)
+		}
+		rs = []ssa.Type{i64t, f64t}
+	case 5:
+		ps = []ssa.Type{i32t, i64t}
+		for i := 0; i < 5; i++ {
+			rs = append(rs, i32t, f32t, i64t, f64t) // results beyond the registers come back on the stack
+		}
+	case 6:
+		rs = []ssa.Type{f32t}
+	}
+	sig := &ssa.Signature{ID: 1, Params: append([]ssa.Type{i64t, i64t}, ps...), Results: rs}
+	m := NewBackend().(*machine)
+	backend.NewCompiler(context.Background(), m, ssa.NewBuilder())
+	root := m.compileEntryPreamble(sig)
+	abi := backend.FunctionABI{}
+	abi.Init(sig, intArgResultRegs, floatArgResultRegs)
+	f := &mFunc{m: m, labels: map[label]*instruction{}, abi: &abi}
+	bin, _, _, _, _, _, _ := frontend.VProgram("T1", 0)
+	w, _ := frontend.VCompile(bin) // only the context model is used
+	const callee = uint64(0x7ffc_0000_1000)
+	s := &mState{w: w, stack: map[uint64]mStackEnt{}, stopAtCall: callee, ectx: map[uint64]uint64{}}
+	goRSP, goRBP := mStackTop-0x100, mStackTop-0x80
+	slice := mStackTop - 0x4000      // the []uint64 Go passes (parameters in, results out)
+	guestStack := mStackTop - 0x8000 // top of the Go-allocated guest stack (16-byte aligned)
+	s.gpr[ri(rspVReg)], s.gpr[ri(rbpVReg)] = goRSP, goRBP
+	s.setReg(raxVReg, frontend.VExecCtxBase, true)
+	s.setReg(rbxVReg, frontend.VModCtxBase, true)
+	s.setReg(paramResultSlicePtr, slice, true)
+	s.setReg(goAllocatedStackPtr, guestStack, true)
+	s.setReg(functionExecutable, callee, true)
+	n := len(ps)
+	if len(rs) > n {
+		n = len(rs)
+	}
+	names := []string{"p0", "p1", "p2", "p3", "p4", "p5", "p6", "p7", "p8", "p9", "p10", "p11", "p12", "p13", "p14", "p15", "p16", "p17", "p18", "p19"}
+	vals := make([]uint64, n)
+	for k := 0; k < n; k++ {
+		v := verifrt.U64(names[k]) // Go leaves whole 64-bit slots; 32-bit values are in the low half
+		vals[k] = v
+		s.stackStore(slice+8*uint64(k), 8, v)
+	}
+	s.push(mRetDone)
+	out := s.runFrom(f, root)
+	if s.unsupp != "" || w.Unsupported() != "" {
+		verifrt.Note("unsupported: " + s.unsupp + w.Unsupported())
+		verifrt.Assert(false, "the machine-level evaluator models every instruction of the entry preamble")
+		return
+	}
+	verifrt.Assert(out == mOutCall, "the preamble calls the guest function")
+	if out != mOutCall {
+		return
+	}
+	rsp := s.gpr[ri(rspVReg)]
+	verifrt.Assert(rsp%16 == 0 && guestStack-rsp < 0x1000, "the guest function is entered on the Go-allocated stack, 16-byte aligned")
+	verifrt.Assert(s.reg(raxVReg) == frontend.VExecCtxBase && s.reg(rbxVReg) == frontend.VModCtxBase, "execution and module context reach the guest function")
+	for i := 2; i < len(abi.Args); i++ {
+		a := &abi.Args[i]
+		want := vals[i-2]
+		var got uint64
+		if a.Kind == backend.ABIArgKindReg {
+			switch a.Type {
+			case f32t:
+				got, want = s.xmm[xi(a.Reg)][0]&0xffffffff, want&0xffffffff
+			case f64t:
+				got = s.xmm[xi(a.Reg)][0]
+			case i32t:
+				got, want = s.reg(a.Reg)&0xffffffff, want&0xffffffff
+			default:
+				got = s.reg(a.Reg)
+			}
+		} else {
+			width := uint64(8)
+			if a.Type == i32t || a.Type == f32t {
+				width, want = 4, want&0xffffffff
+			}
+			got = s.stackLoad(rsp+uint64(a.Offset), width)
+		}
+		verifrt.Assert(got == want, "every parameter reaches the guest function in its register or stack slot with exactly the value Go passed")
+	}
+	// the callee returns its results per the calling convention
+	rnames := []string{"r0", "r1", "r2", "r3", "r4", "r5", "r6", "r7", "r8", "r9", "r10", "r11", "r12", "r13", "r14", "r15", "r16", "r17", "r18", "r19"}
+	res := make([]uint64, len(rs))
+	for j := range abi.Rets {
+		r := &abi.Rets[j]
+		v := verifrt.U64(rnames[j])
+		if r.Type == i32t || r.Type == f32t {
+			v &= 0xffffffff
+		}
+		res[j] = v
+		if r.Kind == backend.ABIArgKindReg {
+			if r.Type == f32t || r.Type == f64t {
+				s.xmm[xi(r.Reg)] = [2]uint64{v, 0}
+			} else {
+				s.setReg(r.Reg, v, true)
+			}
+		} else {
+			width := uint64(8)
+			if r.Type == i32t || r.Type == f32t {
+				width = 4
+			}
+			s.stackStore(rsp+uint64(abi.ArgStackSize)+uint64(r.Offset), width, v)
+		}
+	}
+	out = s.runFrom(f, s.stoppedAt.next)
+	if s.unsupp != "" || w.Unsupported() != "" {
+		verifrt.Note("unsupported: " + s.unsupp + w.Unsupported())
+		verifrt.Assert(false, "the machine-level evaluator models every instruction of the entry preamble")
+		return
+	}
+	verifrt.Assert(out == mOutReturn, "the preamble returns to Go")
+	for j, t := range rs {
+		width := uint64(8)
+		if t == i32t || t == f32t {
+			width = 4
+		}
+		verifrt.Assert(s.stackLoad(slice+8*uint64(j), width) == res[j], "the result slice holds exactly the guest function's results")
+	}
+	verifrt.Assert(s.gpr[ri(rspVReg)] == goRSP && s.gpr[ri(rbpVReg)] == goRBP, "Go's stack and frame pointers are restored")
+	verifrt.Cover("preamble")
 }
